@@ -43,7 +43,8 @@ C = tm.const
 
 
 class Topo:
-    def __init__(self, c, nn, ne, nf):
+    def __init__(self, c, nn, ne, nf, dim=None):
+        self._dim = dim
         self.nvertices = c.size("nverts", 1)
         self.nedges = c.size("nedges", 0)
         self.nfacets = c.size("nfacets", 1)
@@ -52,10 +53,15 @@ class Topo:
         self.t2e = SArr.input("t2e", (ne, self.nelements), lo=0, hi=self.nedges) if ne else None
         self.t2f = SArr.input("t2f", (nf, self.nelements), lo=0, hi=self.nfacets)
 
+    def dim(self):
+        return self._dim
+
 
 class Elem:
     def __init__(self, c, dim):
-        self.dim = dim
+        # Element.dim is the number of COMPONENTS for ElementVector(elem, n): it is deliberately given a value different from the cell's dimension --
+        # the numbering must depend on the mesh's dimension only
+        self.dim = dim % 3 + 1
         self.nodal_dofs = c.size("n_v", 0)
         self.edge_dofs = c.size("n_e", 0)
         self.facet_dofs = c.size("n_f", 0)
@@ -76,7 +82,7 @@ def dofs_unit(cell):
         def body():
             with sarr.index_context() as c:
                 box["c"] = c
-                topo, el = Topo(c, nn, ne, nf), Elem(c, dim)
+                topo, el = Topo(c, nn, ne, nf, dim), Elem(c, dim)
                 with sarr.mode_i([D]):
                     d = D.Dofs.__new__(D.Dofs)
                     D.Dofs.__init__(d, topo, el)
